@@ -253,11 +253,15 @@ type peers struct {
 	script []respSpec
 	pos    int
 	reqs   []int
+	// the real server side of the GetChunk protocol (x/dsmr/p2p.go GetChunkHandler) over the peer's own storage,
+	// which holds every valid chunk (even indices pending, odd indices accepted); "valid" answers come from it
+	real       p2p.Handler
+	serveFault string
 }
 
 func (*peers) AppGossip(context.Context, ids.NodeID, []byte) {}
 
-func (p *peers) AppRequest(_ context.Context, _ ids.NodeID, _ time.Time, requestBytes []byte) ([]byte, *common.AppError) {
+func (p *peers) AppRequest(ctx context.Context, from ids.NodeID, deadline time.Time, requestBytes []byte) ([]byte, *common.AppError) {
 	p.mu.Lock()
 	defer p.mu.Unlock()
 	req := pb.GetChunkRequest{}
@@ -287,7 +291,17 @@ func (p *peers) AppRequest(_ context.Context, _ ids.NodeID, _ time.Time, request
 	}
 	switch r.K {
 	case "valid":
-		return wrap(p.w.valid[asked].bytes)
+		want, _ := wrap(p.w.valid[asked].bytes)
+		got, appErr := p.real.AppRequest(ctx, from, deadline, requestBytes)
+		if appErr != nil {
+			p.serveFault = fmt.Sprintf("GetChunkHandler answered a request for stored chunk %d with an error: %s", asked, appErr.Message)
+			return want, nil
+		}
+		if string(got) != string(want) {
+			p.serveFault = fmt.Sprintf("GetChunkHandler served other bytes than those of the requested stored chunk %d", asked)
+			return want, nil
+		}
+		return got, nil
 	case "wrong":
 		return wrap(p.w.valid[r.W].bytes)
 	default:
@@ -363,7 +377,23 @@ func run(t *testing.T, in input, kind string) (c emit.Case, err error) {
 		}
 	}
 
-	ps := &peers{w: w, script: in.Script}
+	peerStorage, e := dsmr.NewChunkStorage[dsmrtest.Tx](dsmr.NewChunkVerifier[dsmrtest.Tx](cs, ruleFactory{}), memdb.New(), ruleFactory{})
+	if e != nil {
+		return c, e
+	}
+	var peerSaved []ids.ID
+	for i, b := range w.valid {
+		if e := peerStorage.AddLocalChunkWithCert(b.chunk, certOf(i)); e != nil {
+			return c, e
+		}
+		if i%2 == 1 {
+			peerSaved = append(peerSaved, b.id)
+		}
+	}
+	if e := peerStorage.SetMin(0, peerSaved); e != nil {
+		return c, e
+	}
+	ps := &peers{w: w, script: in.Script, real: dsmr.VerifNewGetChunkHandler[dsmrtest.Tx](peerStorage)}
 	peerMap := map[ids.NodeID]p2p.Handler{w.nodeIDs[1]: ps}
 	client := p2ptest.NewClientWithPeers(t, ctx, w.nodeIDs[0], ps, peerMap)
 	node, e := dsmr.New[dsmrtest.Tx](
@@ -398,8 +428,8 @@ func run(t *testing.T, in input, kind string) (c emit.Case, err error) {
 	var res result
 	select {
 	case res = <-done:
-	case <-time.After(60 * time.Second):
-		return c, fmt.Errorf("Accept did not return within 60s (peers served %d requests)", len(ps.reqs))
+	case <-time.After(30 * time.Second):
+		return c, fmt.Errorf("Accept did not return within 30s (peers served %d requests)", len(ps.reqs))
 	}
 	if res.err != nil && len(res.err.Error()) > 15 && res.err.Error()[:15] == "panic in Accept" {
 		return c, res.err
@@ -422,7 +452,11 @@ func run(t *testing.T, in input, kind string) (c emit.Case, err error) {
 	}
 	ps.mu.Lock()
 	reqs := append([]int{}, ps.reqs...)
+	serveFault := ps.serveFault
 	ps.mu.Unlock()
+	if serveFault != "" {
+		return c, errors.New(serveFault)
+	}
 
 	// ---- emit
 	statTerms := make([]string, len(in.Stats))
